@@ -170,7 +170,7 @@ def run(ctx):
             evaluations=cov["states_compared"] + cov["ub_skipped"] + n_must,
             distinct_nontrivial=len(specs),
             rule="every valid literal spelling {decimal, hex} x {none,U,u,LL,ll,ULL,ull} x values {0,1,2^k-1,2^k,2^k+1 for k in 7,8,15,16,31,32,63, 2^64-1} alone, under + - ~, next to variables (unfoldable partner), as ?: and if condition; "
-            "all ordered pairs of a %d-literal boundary set under + - * / and the six comparisons, folded and as typed-variable (unfolded) partners; folds of folds (a folded unary / binary / conditional result as operand of + - * / % and the six comparisons); sizeof of the 8 types and of every operand kind; constant ?: with dead arms that mention live operands, contain value-producing operations, stand next to further such operations, or are conditional code themselves; "
+            "all ordered pairs of a %d-literal boundary set under + - * / and the six comparisons, folded and as typed-variable (unfolded) partners; folds of folds (a folded unary / binary / conditional result as operand of + - * / %% and the six comparisons); sizeof of the 8 types and of every operand kind; constant ?: with dead arms that mention live operands, contain value-producing operations, stand next to further such operations, or are conditional code themselves; "
             "%d programs that must be rejected (literal division by zero, literals above 2^64-1)" % (len(small_literal_set(ctx.tier)), len(MUST_REJECT)),
             exhaustive=True,
             must_reject_programs=n_must,
